@@ -7,60 +7,328 @@ value at the binder's position, for every environment.
 -/
 namespace Holpy
 
+/-! ### list-index helpers -/
+
+theorem getElem?_shift_ge {α : Type} (lo ex hi : List α) (i : Nat) (h : lo.length ≤ i) :
+    (lo ++ ex ++ hi)[i + ex.length]? = (lo ++ hi)[i]? := by
+  grind
+
+theorem getElem?_shift_lt {α : Type} (lo ex hi : List α) (i : Nat) (h : i < lo.length) :
+    (lo ++ ex ++ hi)[i]? = (lo ++ hi)[i]? := by
+  grind
+
 /-- shifting the loose bound variables of `t` by `ex.length` past `lo.length` local binders -/
 theorem Term.getType_incrAt (lo ex hi : List Ty) (t : Term) :
     Term.getType (lo ++ ex ++ hi) (Term.incrAt ex.length lo.length t) = Term.getType (lo ++ hi) t := by
-  sorry
+  induction t generalizing lo with
+  | svar n T => rfl
+  | var n T => rfl
+  | const n T => rfl
+  | comb f a ihf iha =>
+    simp only [Term.incrAt, Term.getType, ihf lo]
+  | abs x T b ih =>
+    have := ih (T :: lo)
+    simp only [List.cons_append, List.length_cons] at this
+    simp only [Term.incrAt, Term.getType, this]
+  | bound i =>
+    simp only [Term.incrAt]
+    split
+    · rename_i h
+      simp only [Term.getType, getElem?_shift_ge lo ex hi i h]
+    · rename_i h
+      simp only [Term.getType, getElem?_shift_lt lo ex hi i (by omega)]
 
 theorem Term.checkedGetType_incrAt (lo ex hi : List Ty) (t : Term) :
     Term.checkedGetType (lo ++ ex ++ hi) (Term.incrAt ex.length lo.length t)
       = Term.checkedGetType (lo ++ hi) t := by
-  sorry
+  induction t generalizing lo with
+  | svar n T => rfl
+  | var n T => rfl
+  | const n T => rfl
+  | comb f a ihf iha =>
+    simp only [Term.incrAt, Term.checkedGetType, ihf lo, iha lo]
+  | abs x T b ih =>
+    have := ih (T :: lo)
+    simp only [List.cons_append, List.length_cons] at this
+    simp only [Term.incrAt, Term.checkedGetType, this]
+  | bound i =>
+    simp only [Term.incrAt]
+    split
+    · rename_i h
+      simp only [Term.checkedGetType, getElem?_shift_ge lo ex hi i h]
+    · rename_i h
+      simp only [Term.checkedGetType, getElem?_shift_lt lo ex hi i (by omega)]
 
 theorem sem_incrAt (M : Model) (ρ : Valuation) (lo ex hi : List Ty) (elo eex ehi : List Nat)
     (h1 : elo.length = lo.length) (h2 : eex.length = ex.length) (t : Term) :
     sem M ρ (lo ++ ex ++ hi) (elo ++ eex ++ ehi) (Term.incrAt ex.length lo.length t)
       = sem M ρ (lo ++ hi) (elo ++ ehi) t := by
-  sorry
+  induction t generalizing lo elo with
+  | svar n T => rfl
+  | var n T => rfl
+  | const n T => rfl
+  | comb f a ihf iha =>
+    simp only [Term.incrAt, sem, Term.getType_incrAt, ihf lo elo h1, iha lo elo h1]
+  | abs x T b ih =>
+    have hty := Term.getType_incrAt (T :: lo) ex hi b
+    simp only [List.cons_append, List.length_cons] at hty
+    have hs : ∀ v, sem M ρ (T :: (lo ++ ex ++ hi)) (v :: (elo ++ eex ++ ehi))
+        (Term.incrAt ex.length (lo.length + 1) b) = sem M ρ (T :: (lo ++ hi)) (v :: (elo ++ ehi)) b := by
+      intro v
+      have := ih (T :: lo) (v :: elo) (by simp [h1])
+      simpa only [List.cons_append, List.length_cons] using this
+    simp only [Term.incrAt, sem, hty, hs]
+  | bound i =>
+    simp only [Term.incrAt]
+    split
+    · rename_i h
+      simp only [sem]
+      rw [← h2, getElem?_shift_ge elo eex ehi i (by omega)]
+    · rename_i h
+      simp only [sem, getElem?_shift_lt elo eex ehi i (by omega)]
 
 /-- `incr_boundvars` is the identity on terms without loose bound variables (the Python's
 `is_open` short cut in `subst_bound`) -/
 theorem Term.incrAt_closed (inc lev : Nat) (t : Term) (h : Term.isOpenAt lev t = false) :
     Term.incrAt inc lev t = t := by
-  sorry
+  induction t generalizing lev with
+  | svar n T => rfl
+  | var n T => rfl
+  | const n T => rfl
+  | comb f a ihf iha =>
+    simp only [Term.isOpenAt, Bool.or_eq_false_iff] at h
+    simp only [Term.incrAt, ihf lev h.1, iha lev h.2]
+  | abs x T b ih =>
+    simp only [Term.isOpenAt] at h
+    simp only [Term.incrAt, ih _ h]
+  | bound i =>
+    simp only [Term.isOpenAt, decide_eq_false_iff_not] at h
+    simp only [Term.incrAt, if_neg h]
+
+/-! ### `subst_bound` -/
+
+theorem getElem?_mid {α : Type} (lo hi : List α) (x : α) : (lo ++ x :: hi)[lo.length]? = some x := by
+  grind
+
+theorem getElem?_drop_gt {α : Type} (lo hi : List α) (x : α) (i : Nat) (h : lo.length < i) :
+    (lo ++ hi)[i - 1]? = (lo ++ x :: hi)[i]? := by
+  grind
+
+theorem getElem?_drop_lt {α : Type} (lo hi : List α) (x : α) (i : Nat) (h : i < lo.length) :
+    (lo ++ hi)[i]? = (lo ++ x :: hi)[i]? := by
+  grind
+
+theorem Term.getType_incrBoundvars (lo hi : List Ty) (u : Term) :
+    Term.getType (lo ++ hi) (Term.incrBoundvars lo.length u) = Term.getType hi u := by
+  have := Term.getType_incrAt [] lo hi u
+  simpa only [List.nil_append, List.length_nil, Term.incrBoundvars] using this
+
+theorem Term.checkedGetType_incrBoundvars (lo hi : List Ty) (u : Term) :
+    Term.checkedGetType (lo ++ hi) (Term.incrBoundvars lo.length u) = Term.checkedGetType hi u := by
+  have := Term.checkedGetType_incrAt [] lo hi u
+  simpa only [List.nil_append, List.length_nil, Term.incrBoundvars] using this
+
+theorem sem_incrBoundvars (M : Model) (ρ : Valuation) (lo hi : List Ty) (elo ehi : List Nat)
+    (h1 : elo.length = lo.length) (u : Term) :
+    sem M ρ (lo ++ hi) (elo ++ ehi) (Term.incrBoundvars lo.length u) = sem M ρ hi ehi u := by
+  have := sem_incrAt M ρ [] lo hi [] elo ehi rfl h1 u
+  simpa only [List.nil_append, List.length_nil, Term.incrBoundvars] using this
 
 /-- typing of `subst_bound`: `s` lives under `lo` local binders on top of the binder of type `T`;
 the argument `u` lives in the outer context `hi` -/
 theorem Term.getType_substBoundAt (lo hi : List Ty) (T : Ty) (u s : Term)
     (hu : Term.getType hi u = .ok T) :
     Term.getType (lo ++ hi) (Term.substBoundAt u lo.length s) = Term.getType (lo ++ T :: hi) s := by
-  sorry
+  induction s generalizing lo with
+  | svar n T => rfl
+  | var n T => rfl
+  | const n T => rfl
+  | comb f a ihf iha =>
+    simp only [Term.substBoundAt, Term.getType, ihf lo]
+  | abs x T' b ih =>
+    have := ih (T' :: lo)
+    simp only [List.cons_append, List.length_cons] at this
+    simp only [Term.substBoundAt, Term.getType, this]
+  | bound i =>
+    simp only [Term.substBoundAt]
+    split
+    · rename_i h
+      have h' : i = lo.length := by simpa using h
+      subst h'
+      simp only [Term.getType_incrBoundvars, hu, Term.getType, getElem?_mid]
+    · split
+      · rename_i h
+        simp only [Term.getType, getElem?_drop_gt lo hi T i h]
+      · rename_i h0 h
+        have h0' : i ≠ lo.length := by simpa using h0
+        simp only [Term.getType, getElem?_drop_lt lo hi T i (by omega)]
+
+/-- `subst_bound` typing as an equation (errors included) -/
+theorem Term.checkedGetType_substBoundAt_eq (lo hi : List Ty) (T : Ty) (u s : Term)
+    (hu : Term.checkedGetType hi u = .ok T) :
+    Term.checkedGetType (lo ++ hi) (Term.substBoundAt u lo.length s)
+      = Term.checkedGetType (lo ++ T :: hi) s := by
+  induction s generalizing lo with
+  | svar n T => rfl
+  | var n T => rfl
+  | const n T => rfl
+  | comb f a ihf iha =>
+    simp only [Term.substBoundAt, Term.checkedGetType, ihf lo, iha lo]
+  | abs x T' b ih =>
+    have := ih (T' :: lo)
+    simp only [List.cons_append, List.length_cons] at this
+    simp only [Term.substBoundAt, Term.checkedGetType, this]
+  | bound i =>
+    simp only [Term.substBoundAt]
+    split
+    · rename_i h
+      have h' : i = lo.length := by simpa using h
+      subst h'
+      simp only [Term.checkedGetType_incrBoundvars, hu, Term.checkedGetType, getElem?_mid]
+    · split
+      · rename_i h
+        simp only [Term.checkedGetType, getElem?_drop_gt lo hi T i h]
+      · rename_i h0 h
+        have h0' : i ≠ lo.length := by simpa using h0
+        simp only [Term.checkedGetType, getElem?_drop_lt lo hi T i (by omega)]
 
 theorem Term.checkedGetType_substBoundAt (lo hi : List Ty) (T S : Ty) (u s : Term)
     (hu : Term.checkedGetType hi u = .ok T)
     (hs : Term.checkedGetType (lo ++ T :: hi) s = .ok S) :
     Term.checkedGetType (lo ++ hi) (Term.substBoundAt u lo.length s) = .ok S := by
-  sorry
+  rw [Term.checkedGetType_substBoundAt_eq lo hi T u s hu, hs]
 
 /-- denotation of `subst_bound`: the body evaluated with the argument's value at the binder -/
 theorem sem_substBoundAt (M : Model) (ρ : Valuation) (lo hi : List Ty) (elo ehi : List Nat)
     (h1 : elo.length = lo.length) (T : Ty) (u s : Term) (hu : Term.getType hi u = .ok T) :
     sem M ρ (lo ++ hi) (elo ++ ehi) (Term.substBoundAt u lo.length s)
       = sem M ρ (lo ++ T :: hi) (elo ++ sem M ρ hi ehi u :: ehi) s := by
-  sorry
+  induction s generalizing lo elo with
+  | svar n T => rfl
+  | var n T => rfl
+  | const n T => rfl
+  | comb f a ihf iha =>
+    simp only [Term.substBoundAt, sem, Term.getType_substBoundAt lo hi T u f hu,
+      ihf lo elo h1, iha lo elo h1]
+  | abs x T' b ih =>
+    have hty := Term.getType_substBoundAt (T' :: lo) hi T u b hu
+    simp only [List.cons_append, List.length_cons] at hty
+    have hs : ∀ v, sem M ρ (T' :: (lo ++ hi)) (v :: (elo ++ ehi))
+        (Term.substBoundAt u (lo.length + 1) b)
+        = sem M ρ (T' :: (lo ++ T :: hi)) (v :: (elo ++ sem M ρ hi ehi u :: ehi)) b := by
+      intro v
+      have := ih (T' :: lo) (v :: elo) (by simp [h1])
+      simpa only [List.cons_append, List.length_cons] using this
+    simp only [Term.substBoundAt, sem, hty, hs]
+  | bound i =>
+    simp only [Term.substBoundAt]
+    split
+    · rename_i h
+      have h' : i = lo.length := by simpa using h
+      subst h'
+      rw [sem_incrBoundvars M ρ lo hi elo ehi h1 u]
+      simp only [sem]
+      rw [← h1, getElem?_mid]
+      rfl
+    · split
+      · rename_i h
+        simp only [sem, getElem?_drop_gt elo ehi (sem M ρ hi ehi u) i (by omega)]
+      · rename_i h0 h
+        have h0' : i ≠ lo.length := by simpa using h0
+        simp only [sem, getElem?_drop_lt elo ehi (sem M ρ hi ehi u) i (by omega)]
+
+/-! ### beta-conversion -/
+
+/-- inversion of `checked_get_type` on an application -/
+theorem Term.checked_comb_inv (bd : List Ty) (f a : Term) (S : Ty)
+    (h : Term.checkedGetType bd (.comb f a) = .ok S) :
+    ∃ tf ta, Term.checkedGetType bd f = .ok tf ∧ Term.checkedGetType bd a = .ok ta ∧
+      tf.isFun = true ∧ tf.domain? = some ta ∧ tf.range? = some S := by
+  simp only [Term.checkedGetType, bind, Except.bind] at h
+  cases hf : Term.checkedGetType bd f with
+  | error e => simp [hf] at h
+  | ok tf =>
+    cases ha : Term.checkedGetType bd a with
+    | error e => simp [hf, ha] at h
+    | ok ta =>
+      simp only [hf, ha] at h
+      refine ⟨tf, ta, rfl, rfl, ?_⟩
+      cases hfun : tf.isFun with
+      | false => simp [hfun] at h
+      | true =>
+        simp only [hfun] at h
+        cases hd : tf.domain? with
+        | none => simp [hd] at h
+        | some d =>
+          simp only [hd] at h
+          by_cases hda : d = ta
+          · subst hda
+            cases hr : tf.range? with
+            | none => simp [hr] at h
+            | some r =>
+              simp [hr] at h
+              simp [h]
+          · simp [hda] at h
+
+/-- inversion of `checked_get_type` on an abstraction -/
+theorem Term.checked_abs_inv (bd : List Ty) (x : String) (T : Ty) (b : Term) (S : Ty)
+    (h : Term.checkedGetType bd (.abs x T b) = .ok S) :
+    ∃ tb, Term.checkedGetType (T :: bd) b = .ok tb ∧ S = Ty.fn T tb := by
+  simp only [Term.checkedGetType, bind, Except.bind] at h
+  cases hb : Term.checkedGetType (T :: bd) b with
+  | error e => simp [hb] at h
+  | ok tb =>
+    simp only [hb, Except.ok.injEq] at h
+    exact ⟨tb, rfl, h.symm⟩
+
+/-- inversion of the typing of a beta-redex -/
+theorem Term.checked_redex_inv (bd : List Ty) (x : String) (T S : Ty) (b a : Term)
+    (h : Term.checkedGetType bd (.comb (.abs x T b) a) = .ok S) :
+    Term.checkedGetType (T :: bd) b = .ok S ∧ Term.checkedGetType bd a = .ok T := by
+  obtain ⟨tf, ta, hf, ha, _, hd, hr⟩ := Term.checked_comb_inv bd _ _ _ h
+  obtain ⟨tb, hb, rfl⟩ := Term.checked_abs_inv bd x T b tf hf
+  simp only [Ty.fn, Ty.domain?, Ty.range?, Option.some.injEq] at hd hr
+  subst hd hr
+  exact ⟨hb, ha⟩
 
 /-- beta-conversion preserves the denotation of a well-typed redex -/
 theorem sem_beta (M : Model) (ρ : Valuation) (hρ : Admissible M ρ) (bd : List Ty) (env : List Nat)
     (henv : EnvOK M bd env) (x : String) (T S : Ty) (b a : Term)
     (h : Term.checkedGetType bd (.comb (.abs x T b) a) = .ok S) :
     sem M ρ bd env (Term.substBoundAt a 0 b) = sem M ρ bd env (.comb (.abs x T b) a) := by
-  sorry
+  obtain ⟨hb, ha⟩ := Term.checked_redex_inv bd x T S b a h
+  have hlax := Term.getType_of_checked _ _ _ hb
+  have h1 := sem_substBoundAt M ρ [] bd [] env rfl T a b (Term.getType_of_checked _ _ _ ha)
+  simp only [List.nil_append, List.length_nil] at h1
+  rw [h1]
+  have hv := sem_lt M ρ hρ bd env henv a T ha
+  have h2 := appCode_sem_abs M ρ hρ bd env henv x T S b hb _ hv
+  rw [← h2]
+  simp only [sem, Term.getType, hlax, bind, Except.bind, Ty.fn, Ty.range?]
 
 /-- beta-conversion preserves the type -/
 theorem checked_beta (bd : List Ty) (x : String) (T S : Ty) (b a : Term)
     (h : Term.checkedGetType bd (.comb (.abs x T b) a) = .ok S) :
     Term.checkedGetType bd (Term.substBoundAt a 0 b) = .ok S := by
-  sorry
+  obtain ⟨hb, ha⟩ := Term.checked_redex_inv bd x T S b a h
+  exact Term.checkedGetType_substBoundAt [] bd T S a b ha hb
+
+/-! ### `beta_norm` -/
+
+/-- the checked type of an application depends only on the checked types of its parts -/
+theorem Term.checked_comb_congr (bd : List Ty) (f f' a a' : Term)
+    (hf : Term.checkedGetType bd f' = Term.checkedGetType bd f)
+    (ha : Term.checkedGetType bd a' = Term.checkedGetType bd a) :
+    Term.checkedGetType bd (.comb f' a') = Term.checkedGetType bd (.comb f a) := by
+  simp only [Term.checkedGetType, hf, ha]
+
+/-- the denotation of an application depends only on the lax type of the head and the
+denotations of its parts -/
+theorem sem_comb_congr (M : Model) (ρ : Valuation) (bd : List Ty) (env : List Nat) (f f' a a' : Term)
+    (ht : Term.getType bd f' = Term.getType bd f)
+    (hf : sem M ρ bd env f' = sem M ρ bd env f) (ha : sem M ρ bd env a' = sem M ρ bd env a) :
+    sem M ρ bd env (.comb f' a') = sem M ρ bd env (.comb f a) := by
+  simp only [sem, ht, hf, ha]
 
 /-- `beta_norm`: if it returns, the result has the same type and denotation (fuel model;
 termination on well-typed terms is strong normalisation and is not proved) -/
@@ -68,6 +336,54 @@ theorem sem_betaNorm (M : Model) (ρ : Valuation) (hρ : Admissible M ρ) (fuel 
     (env : List Nat) (henv : EnvOK M bd env) (t t' : Term) (S : Ty)
     (h : Term.checkedGetType bd t = .ok S) (hn : Term.betaNorm fuel t = .ok t') :
     Term.checkedGetType bd t' = .ok S ∧ sem M ρ bd env t' = sem M ρ bd env t := by
-  sorry
+  induction fuel generalizing bd env t t' S with
+  | zero => simp [Term.betaNorm] at hn
+  | succ fuel ih =>
+    cases t with
+    | svar n T => simp only [Term.betaNorm, Except.ok.injEq] at hn; subst hn; exact ⟨h, rfl⟩
+    | var n T => simp only [Term.betaNorm, Except.ok.injEq] at hn; subst hn; exact ⟨h, rfl⟩
+    | const n T => simp only [Term.betaNorm, Except.ok.injEq] at hn; subst hn; exact ⟨h, rfl⟩
+    | bound i => simp only [Term.betaNorm, Except.ok.injEq] at hn; subst hn; exact ⟨h, rfl⟩
+    | abs x T b =>
+      simp only [Term.betaNorm, bind, Except.bind] at hn
+      cases hb : Term.betaNorm fuel b with
+      | error e => simp [hb] at hn
+      | ok b' =>
+        simp only [hb, Except.ok.injEq] at hn
+        subst hn
+        obtain ⟨tb, hcb, rfl⟩ := Term.checked_abs_inv bd x T b S h
+        have h0 : EnvOK M (T :: bd) (0 :: env) := Forall2.cons (Model.size_pos M T) henv
+        have hty : Term.checkedGetType (T :: bd) b' = .ok tb := (ih _ _ h0 b b' tb hcb hb).1
+        refine ⟨by simp only [Term.checkedGetType, hty, bind, Except.bind], ?_⟩
+        simp only [sem, Term.getType_of_checked _ _ _ hty, Term.getType_of_checked _ _ _ hcb]
+        apply lamCode_congr
+        intro v hv
+        exact (ih _ _ (Forall2.cons hv henv) b b' tb hcb hb).2
+    | comb f a =>
+      simp only [Term.betaNorm, bind, Except.bind] at hn
+      obtain ⟨tf, ta, hcf, hca, _, _, _⟩ := Term.checked_comb_inv bd f a S h
+      cases hf : Term.betaNorm fuel f with
+      | error e => simp [hf] at hn
+      | ok f' =>
+        cases ha : Term.betaNorm fuel a with
+        | error e => simp [hf, ha] at hn
+        | ok a' =>
+          simp only [hf, ha] at hn
+          obtain ⟨hf1, hf2⟩ := ih bd env henv f f' tf hcf hf
+          obtain ⟨ha1, ha2⟩ := ih bd env henv a a' ta hca ha
+          have hc : Term.checkedGetType bd (.comb f' a') = .ok S := by
+            rw [Term.checked_comb_congr bd f f' a a' (hf1.trans hcf.symm) (ha1.trans hca.symm), h]
+          have hs : sem M ρ bd env (.comb f' a') = sem M ρ bd env (.comb f a) :=
+            sem_comb_congr M ρ bd env f f' a a'
+              ((Term.getType_of_checked _ _ _ hf1).trans (Term.getType_of_checked _ _ _ hcf).symm)
+              hf2 ha2
+          split at hn
+          · rename_i x T b
+            simp only [Term.betaConv, Term.substBound] at hn
+            obtain ⟨hr1, hr2⟩ := ih bd env henv _ t' S (checked_beta bd x T S b a' hc) hn
+            exact ⟨hr1, hr2.trans ((sem_beta M ρ hρ bd env henv x T S b a' hc).trans hs)⟩
+          · simp only [Except.ok.injEq] at hn
+            subst hn
+            exact ⟨hc, hs⟩
 
 end Holpy
